@@ -36,13 +36,15 @@ class C03(SweepProp):
                     'shrink_s': 60,
                     'require_probes': ['c03.delivered_checked',
                                        'c03.misaligned_world',
-                                       'c03.scaling_twin'],
+                                       'c03.scaling_twin',
+                                       'c03.second_construction'],
                     'min_evaluated': 80}
         return {'runs': 40000, 'wall_s': 1000, 'per_run_timeout': 600,
                 'shrink_s': 300,
                 'require_probes': ['c03.delivered_checked',
                                    'c03.misaligned_world',
-                                   'c03.scaling_twin'],
+                                   'c03.scaling_twin',
+                                   'c03.second_construction'],
                 'min_evaluated': 1500}
 
     def monitors(self, case, spec):
@@ -52,6 +54,38 @@ class C03(SweepProp):
         g = S('twin')
         case['scale_twin'] = float(world._r(g.uniform(0.1, 3.0), 4)) \
             if (case['spec'].get('const') and rng.chance(g, 0.5)) else None
+        case['second_construction'] = bool(rng.chance(S('second'), 0.35))
+
+    def _second_construction(self, case, e, res):
+        """History dimension: a second model built in the same process from
+        the same parsed input and the same (unchanged) power files - what a
+        multi-time-point run, the orificing loop or an API user does - must
+        deliver the assigned power as well."""
+        import dassh
+        spec = case['spec']
+        plan = sim.Plan.from_json(case.get('plan'))
+        S2 = sim.Sim(plan=plan, monitors=[oracles.PowerC03(spec, 0)])
+        try:
+            with S2:
+                r2 = dassh.Reactor(e.inp)
+                if len(r2.dz) > self.max_ticks:
+                    res['probes']['c03.second_construction_skipped'] = 1
+                    return
+                r2.temperature_sweep()
+                S2.finish(r2)
+        except (SystemExit, Exception) as err:  # C16/C18 matters, not C03
+            res['probes']['c03.second_construction_failed'] = 1
+            res.setdefault('notes', []).append(
+                f'second construction: {type(err).__name__}')
+            return
+        res['executions'] += 1
+        res['probes']['c03.second_construction'] = 1
+        for v in S2.violations:
+            j = v.to_json()
+            j['features'] = sorted(set(j.get('features', []))
+                                   | {'second_construction'})
+            j['site'] = 'second construction: ' + j['site']
+            res['violations'].append(j)
 
     def after(self, case, e, res, d):
         spec = case['spec']
@@ -65,6 +99,8 @@ class C03(SweepProp):
             if any(0.0 < b < L and b not in pa['zb'] for b in (zlo, zhi)) \
                     and not types[p['type']].get('lowfi'):
                 res['probes']['c03.misaligned_world'] = 1
+        if case.get('second_construction') and not res['violations']:
+            self._second_construction(case, e, res)
         s = case.get('scale_twin')
         if not s or res['violations']:
             return
